@@ -10,22 +10,18 @@ import (
 	"bytes"
 	"encoding/binary"
 	"fmt"
-	"go/ast"
-	"go/parser"
-	"go/token"
 	"os"
-	"path/filepath"
 	"reflect"
-	"regexp"
 	"runtime"
 	"sort"
 	"strconv"
-	"strings"
+	"sync"
 	"time"
 
 	"github.com/tonkeeper/tongo/liteclient"
 	"github.com/tonkeeper/tongo/tl"
 	"verifharness/h"
+	"verifharness/tldesc"
 )
 
 func repoDir() string {
@@ -103,392 +99,8 @@ var tlByName = func() map[string]reflect.Type {
 	return m
 }()
 
-// ---------------------------------------------------------------------------------------- go/ast schema of generated.go
-
-type genField struct {
-	Path []string // t.A.B -> [A B]
-	Cond int      // -1 = unconditional, else mode bit
-}
-type genAlt struct {
-	Tag    uint64
-	Fields []genField
-}
-type genType struct {
-	Fields []genField
-	Alts   []genAlt // non-nil for tag-switch types
-	IsSum  bool
-}
-
-type tlSchema struct {
-	Types    map[string]*genType
-	Requests map[uint32]string // tag -> request type name (taggedRequestDecodeFunctions)
-	SigTag   uint64            // tag checked by the hand-written LiteServerSignatureSet.UnmarshalTL
-}
-
-func fatalSubset(what string, pos token.Position) {
-	panic(fmt.Sprintf("c08 translator: construct outside the supported subset of generated UnmarshalTL: %s at %v", what, pos))
-}
-
-// selector chain t.A.B -> [A B]; an identifier tempX -> nil, name
-func selPath(e ast.Expr) ([]string, string) {
-	switch x := e.(type) {
-	case *ast.Ident:
-		return nil, x.Name
-	case *ast.SelectorExpr:
-		p, root := selPath(x.X)
-		return append(p, x.Sel.Name), root
-	}
-	return nil, ""
-}
-
-// isUnmarshalCall recognises `tl.Unmarshal(r, &X)` and returns X.
-func isUnmarshalCall(e ast.Expr) (ast.Expr, bool) {
-	c, ok := e.(*ast.CallExpr)
-	if !ok || len(c.Args) != 2 {
-		return nil, false
-	}
-	s, ok := c.Fun.(*ast.SelectorExpr)
-	if !ok || s.Sel.Name != "Unmarshal" {
-		return nil, false
-	}
-	if id, ok := s.X.(*ast.Ident); !ok || id.Name != "tl" {
-		return nil, false
-	}
-	u, ok := c.Args[1].(*ast.UnaryExpr)
-	if !ok || u.Op != token.AND {
-		return nil, false
-	}
-	return u.X, true
-}
-
-func isErrCheck(s ast.Stmt) bool {
-	i, ok := s.(*ast.IfStmt)
-	if !ok || i.Init != nil {
-		return false
-	}
-	b, ok := i.Cond.(*ast.BinaryExpr)
-	if !ok || b.Op != token.NEQ {
-		return false
-	}
-	x, ok := b.X.(*ast.Ident)
-	return ok && x.Name == "err"
-}
-
-// modeBit recognises `(t.Mode>>k)&1 == 1`
-func modeBit(e ast.Expr) (int, bool) {
-	b, ok := e.(*ast.BinaryExpr)
-	if !ok || b.Op != token.EQL {
-		return 0, false
-	}
-	and, ok := b.X.(*ast.BinaryExpr)
-	if !ok || and.Op != token.AND {
-		return 0, false
-	}
-	par, ok := and.X.(*ast.ParenExpr)
-	if !ok {
-		return 0, false
-	}
-	sh, ok := par.X.(*ast.BinaryExpr)
-	if !ok || sh.Op != token.SHR {
-		return 0, false
-	}
-	p, root := selPath(sh.X)
-	if root != "t" || len(p) == 0 || p[len(p)-1] != "Mode" {
-		return 0, false
-	}
-	lit, ok := sh.Y.(*ast.BasicLit)
-	if !ok {
-		return 0, false
-	}
-	k, err := strconv.Atoi(lit.Value)
-	return k, err == nil
-}
-
-func parseGenBody(fset *token.FileSet, stmts []ast.Stmt, gt *genType) []genField {
-	var fields []genField
-	for _, s := range stmts {
-		switch x := s.(type) {
-		case *ast.DeclStmt: // var err error / var b [4]byte
-			continue
-		case *ast.ReturnStmt:
-			continue
-		case *ast.AssignStmt:
-			if len(x.Rhs) == 1 {
-				if target, ok := isUnmarshalCall(x.Rhs[0]); ok {
-					p, root := selPath(target)
-					if root != "t" || len(p) == 0 {
-						fatalSubset("tl.Unmarshal target", fset.Position(x.Pos()))
-					}
-					fields = append(fields, genField{Path: p, Cond: -1})
-					continue
-				}
-				// _, err = io.ReadFull(r, b[:]) ; tag := int(binary.LittleEndian.Uint32(b[:])) ; t.SumType = "X"
-				if c, ok := x.Rhs[0].(*ast.CallExpr); ok {
-					if se, ok := c.Fun.(*ast.SelectorExpr); ok && (se.Sel.Name == "ReadFull") {
-						gt.IsSum = true
-						continue
-					}
-					if id, ok := c.Fun.(*ast.Ident); ok && id.Name == "int" {
-						continue
-					}
-				}
-				if _, ok := x.Rhs[0].(*ast.BasicLit); ok { // t.SumType = "..."
-					continue
-				}
-			}
-			fatalSubset("assignment", fset.Position(x.Pos()))
-		case *ast.IfStmt:
-			if isErrCheck(x) {
-				continue
-			}
-			k, ok := modeBit(x.Cond)
-			if !ok {
-				fatalSubset("if condition", fset.Position(x.Pos()))
-			}
-			// var tempF X; err = tl.Unmarshal(r, &tempF); if err..; t.F = tempF | &tempF
-			var dst []string
-			sawUnmarshal := false
-			for _, bs := range x.Body.List {
-				switch y := bs.(type) {
-				case *ast.DeclStmt:
-				case *ast.IfStmt:
-					if !isErrCheck(y) {
-						fatalSubset("nested if", fset.Position(y.Pos()))
-					}
-				case *ast.AssignStmt:
-					if _, ok := isUnmarshalCall(y.Rhs[0]); ok {
-						sawUnmarshal = true
-						continue
-					}
-					p, root := selPath(y.Lhs[0])
-					if root != "t" || len(p) == 0 {
-						fatalSubset("conditional assignment", fset.Position(y.Pos()))
-					}
-					dst = p
-				default:
-					fatalSubset("conditional body", fset.Position(bs.Pos()))
-				}
-			}
-			if len(x.Body.List) == 0 {
-				continue // `mode.k?true`: a flag without payload
-			}
-			if !sawUnmarshal || dst == nil {
-				fatalSubset("conditional field without decode", fset.Position(x.Pos()))
-			}
-			fields = append(fields, genField{Path: dst, Cond: k})
-		case *ast.SwitchStmt:
-			for _, cc := range x.Body.List {
-				cl := cc.(*ast.CaseClause)
-				if cl.List == nil {
-					continue // default: return error
-				}
-				lit, ok := cl.List[0].(*ast.BasicLit)
-				if !ok {
-					fatalSubset("case label", fset.Position(cl.Pos()))
-				}
-				tag, err := strconv.ParseUint(lit.Value, 0, 64)
-				if err != nil {
-					fatalSubset("case label value", fset.Position(cl.Pos()))
-				}
-				sub := &genType{}
-				fs := parseGenBody(fset, cl.Body, sub)
-				gt.Alts = append(gt.Alts, genAlt{Tag: tag, Fields: fs})
-			}
-		default:
-			fatalSubset(fmt.Sprintf("%T", s), fset.Position(s.Pos()))
-		}
-	}
-	return fields
-}
-
-func loadTLSchema() *tlSchema {
-	sc := &tlSchema{Types: map[string]*genType{}, Requests: map[uint32]string{}}
-	fset := token.NewFileSet()
-	path := filepath.Join(repoDir(), "liteclient", "generated.go")
-	f, err := parser.ParseFile(fset, path, nil, 0)
-	if err != nil {
-		panic(fmt.Sprintf("c08: cannot parse %s: %v", path, err))
-	}
-	for _, d := range f.Decls {
-		switch x := d.(type) {
-		case *ast.FuncDecl:
-			if x.Name.Name != "UnmarshalTL" || x.Recv == nil {
-				continue
-			}
-			st, ok := x.Recv.List[0].Type.(*ast.StarExpr)
-			if !ok {
-				continue
-			}
-			name := st.X.(*ast.Ident).Name
-			gt := &genType{}
-			gt.Fields = parseGenBody(fset, x.Body.List, gt)
-			sc.Types[name] = gt
-		case *ast.GenDecl:
-			// decodeFuncX = decodeRequest(0x.., XName, X{})
-			for _, sp := range x.Specs {
-				vs, ok := sp.(*ast.ValueSpec)
-				if !ok || len(vs.Values) != 1 {
-					continue
-				}
-				c, ok := vs.Values[0].(*ast.CallExpr)
-				if !ok {
-					continue
-				}
-				if id, ok := c.Fun.(*ast.Ident); !ok || id.Name != "decodeRequest" || len(c.Args) != 3 {
-					continue
-				}
-				tag, err := strconv.ParseUint(c.Args[0].(*ast.BasicLit).Value, 0, 32)
-				if err != nil {
-					panic("c08: decodeRequest tag")
-				}
-				cl, ok := c.Args[2].(*ast.CompositeLit)
-				if !ok {
-					panic("c08: decodeRequest type")
-				}
-				sc.Requests[uint32(tag)] = cl.Type.(*ast.Ident).Name
-			}
-		}
-	}
-	ext, err := os.ReadFile(filepath.Join(repoDir(), "liteclient", "extensions.go"))
-	if err != nil {
-		panic(err)
-	}
-	m := regexp.MustCompile(`(?s)func \(t \*LiteServerSignatureSet\) UnmarshalTL.*?tag != (0x[0-9a-fA-F]+)`).FindSubmatch(ext)
-	if m == nil {
-		panic("c08: LiteServerSignatureSet.UnmarshalTL has changed shape")
-	}
-	sc.SigTag, _ = strconv.ParseUint(string(m[1]), 0, 64)
-	// the registry must list exactly the types that have an UnmarshalTL
-	have := map[string]bool{"LiteServerSignatureSet": true}
-	for n := range sc.Types {
-		have[n] = true
-	}
-	for _, r := range tlRegistry {
-		if !have[r.Name] {
-			panic("c08: registry lists " + r.Name + " which has no UnmarshalTL any more; run tools_gen_c08_registry.py")
-		}
-		delete(have, r.Name)
-	}
-	for n := range have {
-		panic("c08: type " + n + " has an UnmarshalTL but is not in the registry; run tools_gen_c08_registry.py")
-	}
-	return sc
-}
-
-// ---------------------------------------------------------------------------------------- descriptors
-
-var unmarshalerTL = reflect.TypeOf((*tl.UnmarshalerTL)(nil)).Elem()
-var int256Type = reflect.TypeOf(tl.Int256{})
-
-func fieldByPath(t reflect.Type, path []string) reflect.Type {
-	for _, p := range path {
-		f, ok := t.FieldByName(p)
-		if !ok {
-			panic("c08: field " + p + " not found in " + t.String())
-		}
-		t = f.Type
-	}
-	return t
-}
-
-func (sc *tlSchema) fieldsDesc(t reflect.Type, fs []genField) string {
-	var parts []string
-	for _, f := range fs {
-		ft := fieldByPath(t, f.Path)
-		s := ""
-		if f.Path[len(f.Path)-1] == "Mode" && f.Cond < 0 {
-			s += "m"
-		}
-		if f.Cond >= 0 {
-			s += "?" + strconv.Itoa(f.Cond) + ":"
-			if ft.Kind() == reflect.Pointer {
-				ft = ft.Elem() // var temp T; t.F = &temp
-			}
-		}
-		parts = append(parts, s+sc.desc(ft))
-	}
-	return "T(" + strings.Join(parts, ",") + ")"
-}
-
-// desc: the shape of type t as tl.decode sees it (see lean/TongoModel/TlDecode.lean for the grammar)
-func (sc *tlSchema) desc(t reflect.Type) string {
-	if t == int256Type {
-		return "H"
-	}
-	if reflect.PointerTo(t).Implements(unmarshalerTL) {
-		if t.PkgPath() == "github.com/tonkeeper/tongo/liteclient" {
-			if t.Name() == "LiteServerSignatureSet" {
-				inner := reflect.TypeOf(liteclient.LiteServerSignatureSetC{})
-				return "U(" + strconv.FormatUint(sc.SigTag, 10) + "=" + sc.desc(inner) + ")"
-			}
-			gt, ok := sc.Types[t.Name()]
-			if !ok {
-				panic("c08: no generated UnmarshalTL found for " + t.Name())
-			}
-			if gt.IsSum {
-				var alts []string
-				for _, a := range gt.Alts {
-					alts = append(alts, strconv.FormatUint(a.Tag, 10)+"="+sc.fieldsDesc(t, a.Fields))
-				}
-				return "U(" + strings.Join(alts, ",") + ")"
-			}
-			return sc.fieldsDesc(t, gt.Fields)
-		}
-		panic("c08: type with a hand-written UnmarshalTL outside the model: " + t.String())
-	}
-	switch t.Kind() {
-	case reflect.Uint32, reflect.Int32:
-		return "i"
-	case reflect.Uint64, reflect.Int64:
-		return "l"
-	case reflect.Bool:
-		return "b"
-	case reflect.String:
-		return "B"
-	case reflect.Slice:
-		if t.Elem().Kind() == reflect.Uint8 {
-			return "B"
-		}
-		return "V" + strconv.Itoa(int(t.Elem().Size())) + "(" + sc.desc(t.Elem()) + ")"
-	case reflect.Array:
-		if t.Elem().Kind() == reflect.Uint8 {
-			return "A" + strconv.Itoa(t.Len())
-		}
-		return "X"
-	case reflect.Pointer:
-		return "P(" + sc.desc(t.Elem()) + ")"
-	case reflect.Struct:
-		if _, ok := t.FieldByName("SumType"); ok {
-			var alts []string
-			for i := 0; i < t.NumField(); i++ {
-				f := t.Field(i)
-				if f.Type.Name() == "SumType" {
-					continue
-				}
-				tag := f.Tag.Get("tlSumType")
-				if len(tag) == 8 {
-					if v, err := strconv.ParseUint(tag, 16, 32); err == nil {
-						alts = append(alts, strconv.FormatUint(v, 10)+"="+sc.desc(f.Type))
-						continue
-					}
-				}
-				alts = append(alts, "!="+sc.desc(f.Type))
-			}
-			return "U(" + strings.Join(alts, ",") + ")"
-		}
-		var parts []string
-		for i := 0; i < t.NumField(); i++ {
-			f := t.Field(i)
-			if !f.IsExported() {
-				parts = append(parts, "X") // "can't set field": an error before anything is read
-				break
-			}
-			parts = append(parts, sc.desc(f.Type))
-		}
-		return "T(" + strings.Join(parts, ",") + ")"
-	}
-	return "X"
-}
+// The descriptors (go/ast schema of generated.go + reflection) live in package verifharness/tldesc, shared with the
+// translator TldTypes.
 
 // ---------------------------------------------------------------------------------------- random values
 
@@ -565,6 +177,9 @@ func (gc *genCtx) fillTL(v reflect.Value, depth int) {
 				idx = append(idx, i)
 			}
 			i := idx[g.Rng.Intn(len(idx))]
+			if depth == 0 && gc.forceAlt >= 0 {
+				i = idx[gc.forceAlt%len(idx)] // every alternative of a top-level sum type gets a valid encoding
+			}
 			v.FieldByName("SumType").SetString(t.Field(i).Name)
 			gc.fillTL(v.Field(i), depth+1)
 			return
@@ -595,7 +210,8 @@ func safeMarshalTL(o any) (b []byte, err error) {
 
 type genCtx struct {
 	g        *h.G
-	sc       *tlSchema
+	sc       *tldesc.Schema
+	forceAlt int
 	noSeed   map[string]bool
 	perType  map[string]int
 	tlbStats map[string]*tlbStat
@@ -629,10 +245,25 @@ func (gc *genCtx) emitTL(name, desc string, bs []byte, kind string) {
 
 func (gc *genCtx) genTLType(r regType, perType int) {
 	g := gc.g
-	desc := gc.sc.desc(r.T)
+	desc := gc.sc.Desc(r.T)
 	g.Emit("tld.consts", r.Name, desc)
 	budget := perType
 	seeds := 3
+	if r.T.Kind() == reflect.Struct {
+		if _, ok := r.T.FieldByName("SumType"); ok {
+			// one accepted encoding per alternative, outside the budget: a reflect panic that depends on the Go type
+			// alone (not on the bytes) shows on the first decode of that alternative
+			for a := 0; a < r.T.NumField()-1; a++ {
+				v := reflect.New(r.T)
+				gc.forceAlt = a
+				gc.fillTL(v.Elem(), 0)
+				gc.forceAlt = -1
+				if bs, err := safeMarshalTL(v.Elem().Interface()); err == nil {
+					gc.emitTL(r.Name, desc, bs, "valid")
+				}
+			}
+		}
+	}
 	valid := 0
 	for s := 0; s < seeds && budget > 0; s++ {
 		v := reflect.New(r.T)
@@ -756,7 +387,7 @@ func (gc *genCtx) genTL() {
 		d := "-"
 		if len(b) >= 4 {
 			if n, ok := gc.sc.Requests[binary.LittleEndian.Uint32(b[:4])]; ok {
-				d = gc.sc.desc(tlByName[n])
+				d = gc.sc.Desc(tlByName[n])
 			}
 		}
 		g.Emit("tld.reqdec", d, h.Hex(b))
@@ -972,9 +603,18 @@ func exTLPqa(a []string) string {
 
 // tl.consts is answered by the model only (constants of the proved bounds for this descriptor); the Go side echoes
 // the line's expectation: the descriptor must be well formed.
+var execSchema = sync.OnceValue(func() *tldesc.Schema { return tldesc.Load(repoDir()) })
+
+// the descriptor is recomputed from the current source at execution time: the model answers with the printed form of
+// what it parsed from the op line
 func exTLConsts(a []string) string {
-	if a[0] == "g.Zero" {
-		return "ok notwf" // a vector of zero-width elements: outside the hypothesis of the step bound
+	t, ok := tlByName[a[0]]
+	if !ok {
+		return "bad-op"
 	}
-	return "ok wf"
+	wf := "ok wf "
+	if a[0] == "g.Zero" {
+		wf = "ok notwf " // a vector of zero-width elements: outside the hypothesis of the step bound
+	}
+	return wf + execSchema().Desc(t)
 }
